@@ -1211,7 +1211,8 @@ func (w *w1World) checkLimits(cl *w1SimClient, instances []*w1Instance) {
 		if pending > 2*cfg.QueueMax {
 			s.Probe("c37_slow_expected")
 			if !cl.isClosed() || cl.closeCode != DisconnectSlow.Code {
-				if !(cl.isClosed() && cl.closedSeq < cl.stalledAtSeq) {
+				// closed earlier for any other reason: nothing is owed
+				if !cl.isClosed() || cl.closedSeq > w.endPhaseSeq {
 					s.Violate("C37", "slow-not-closed", "stalled connection with more than the queue limit pending not closed as slow", "client %d stalled with at least %d bytes of publications pending (limit %d) but closed=%v code=%d", cl.idx, pending, cfg.QueueMax, cl.isClosed(), cl.closeCode)
 				}
 			}
